@@ -284,6 +284,10 @@ def prelude(per_query_timeout_ms: int, solver: str) -> str:
 
 def parse_results(out: str, n: int) -> List[str]:
     """Extract the sequence of check-sat answers."""
+    if "(error" in out:
+        # an assertion the solver rejected is silently dropped by it: no answer of this run can be trusted
+        i = out.index("(error")
+        raise SolverError(f"solver reported an error: {out[i:i + 600]}")
     res = [ln.strip() for ln in out.splitlines() if ln.strip() in ("sat", "unsat", "unknown", "timeout")]
     if len(res) != n:
         raise SolverError(f"expected {n} answers, got {len(res)}: {out[:2000]}")
